@@ -30,7 +30,7 @@ CONFIG = dict(
     min_nontrivial={"quick": 1500, "thorough": 50000},
     nshards={"quick": 8, "thorough": 16},
     timeout={"quick": 600, "thorough": 3600},
-    required_counters=("steps", "probes", "inactive_states_probed", "snapshots_compared", "static_answers_compared"),
+    required_counters=("steps", "probes", "inactive_states_probed", "long_lived_probes", "snapshots_compared", "static_answers_compared"),
 )
 
 ADDSETS = {
@@ -213,6 +213,52 @@ def run_history(ctx, mods, base, static0, hist):
 CUSTOM_BASE_PARAM = None
 
 
+def long_lived(ctx, mods, base):
+    """Unpickler instances that stay in use (a stream of several pickles) while many other instances and activations
+    with other additions come and go: each instance keeps exactly BASE + its own additions to the end."""
+    ml, hook, analysis, f, U = mods
+    agg = ctx.agg
+    stream = PROBES["collections.OrderedDict"] + PROBES["collections.Counter"] + PROBES["vp_sink.K"] + PROBES["collections.OrderedDict"]
+    for n_between in (0, 1, 7, 8, 9, 17, 40, 130):
+        key = h(f"long-lived|{n_between}".encode())
+        if not ctx.mine(key.encode()):
+            continue
+        agg.case(key, True, {"history": ["long-lived", n_between]})
+        w = {"history": ["long-lived", f"others_between={n_between}"]}
+        try:
+            od = PROBES["collections.OrderedDict"]
+            mk = lambda probe, adds: ml.FicklingMLUnpickler(io.BytesIO(od + PROBES[probe]), also_allow=adds)  # noqa: E731
+            # one instance per later probe (a refused load leaves its stream in the middle of a pickle)
+            insts = {"plain:Counter": mk("collections.Counter", None), "own:Counter": mk("collections.Counter", ["collections.Counter"]),
+                     "plain:vp_sink.K": mk("vp_sink.K", None), "own:vp_sink.K": mk("vp_sink.K", ["collections.Counter"]),
+                     "plain:OrderedDict": mk("collections.OrderedDict", None), "own:OrderedDict": mk("collections.OrderedDict", ["vp_other.K"]),
+                     "own2:vp_other.K": mk("vp_other.K", ["vp_other.K"])}
+            first = tuple(outcome(u.load, U) for u in insts.values())
+            for k in range(n_between):
+                adds = [["vp_sink.K", "fractions.Fraction"], ["vp_other.K"], ["collections.Counter", "vp_sink.K"], None][k % 4]
+                outcome(lambda: ml.FicklingMLUnpickler(io.BytesIO(PROBES["vp_sink.K"]), also_allow=adds).load(), U)
+                if k % 3 == 0:
+                    hook.activate_safe_ml_environment(also_allow=adds)
+                    outcome(lambda: pickle.loads(PROBES["vp_sink.K"]), U)
+                    outcome(lambda: pickle.loads(PROBES["collections.Counter"]), U)
+                    hook.deactivate_safe_ml_environment()
+            got = {name: outcome(u.load, U) for name, u in insts.items()}
+            want = {"plain:Counter": "blocked", "own:Counter": "allowed", "plain:vp_sink.K": "blocked", "own:vp_sink.K": "blocked",
+                    "plain:OrderedDict": "allowed", "own:OrderedDict": "allowed", "own2:vp_other.K": "allowed"}
+            first = ("allowed", "allowed") if all(x == "allowed" for x in first) else first
+            agg.count("long_lived_probes", len(got))
+            if first != ("allowed", "allowed") or got != want:
+                bad = {k: v for k, v in got.items() if v != want[k]}
+                agg.violation("instance-allowlist:changes-during-lifetime",
+                              f"an unpickler in use across {n_between} other constructions / activations: {bad or first} "
+                              f"(expected exactly BASE + its own additions throughout)", dict(w, got=got))
+        finally:
+            pickle.load, pickle.loads, _pickle.load, _pickle.loads = ORIG
+            if ml.ML_ALLOWLIST != base:
+                ml.ML_ALLOWLIST.clear()
+                ml.ML_ALLOWLIST.update(copy.deepcopy(base))
+
+
 def setup():
     global CUSTOM_BASE_PARAM
     import inspect
@@ -234,6 +280,7 @@ def run_shard(ctx):
     static0 = static_answer(mods)
     for hist in histories(ctx):
         run_history(ctx, mods, base, static0, hist)
+    long_lived(ctx, mods, base)
 
 
 def replay(ctx, payload):
